@@ -1212,3 +1212,86 @@ def waiting_loops_resample(chk):
                    detail="%s is read from live state once before the loop at line %d and tested in the loop (%s): after the wait the test sees the old value"
                    % (nm, pre.lineno, ast.unparse(t)[:80]), construct=ident, text="stale sample %s in waiting loop" % nm)
     chk.ob("STALE-0", "async functions examined for stale samples in waiting loops (%d)" % n, True, "mpf:1", nontrivial=False)
+
+
+# ---------------------------------------------------------------------------------------------------------------- TRIP-0
+# A per-item value: a local that a loop body computes from the current item and then hands to a call.  If some path through the trip reaches the
+# call without computing it, the call gets the value of an *earlier* item (the pre-loop initialisation only serves the first trip).
+_POS_TRIP = """
+def f(self, xs, state):
+    hs = state
+    for x in xs:
+        if hs == 2:
+            hs = 0 if self.active(x) else 1
+        self.add(x, state=hs)
+"""
+_TRIP_CONFIRMED = {}
+
+
+def _carried_args(fn_node, cfg):
+    out = []
+    for lp in [x for x in ast.walk(fn_node) if isinstance(x, ast.For)]:
+        item_names = {t.id for t in ast.walk(lp.target) if isinstance(t, ast.Name)}
+        body_nodes = {id(x) for b in lp.body for x in ast.walk(b)}
+        asg = {}
+        for b in lp.body:
+            for x in ast.walk(b):
+                if isinstance(x, ast.Assign) and len(x.targets) == 1 and isinstance(x.targets[0], ast.Name):
+                    nm = x.targets[0].id
+                    reads = {y.id for y in ast.walk(x.value) if isinstance(y, ast.Name)}
+                    if nm in reads:
+                        asg[nm] = None          # accumulator: carried on purpose
+                    elif asg.get(nm, []) is not None and reads & item_names:
+                        asg.setdefault(nm, []).append(x)
+                elif isinstance(x, ast.AugAssign) and isinstance(x.target, ast.Name):
+                    asg[x.target.id] = None
+        asg = {k: v for k, v in asg.items() if v}
+        if not asg:
+            continue
+        heads = [n for n in cfg.nodes if n.kind == "loop" and n.ast is lp]
+        if not heads:
+            continue
+        head = heads[0]
+        for nm, stmts in sorted(asg.items()):
+            # every in-loop assignment of the name computes from the item; the name is also initialised before the loop
+            all_in = [x for b in lp.body for x in ast.walk(b) if isinstance(x, ast.Assign) and any(isinstance(t, ast.Name) and t.id == nm for t in x.targets)]
+            if len(all_in) != len(stmts):
+                continue
+            pre = [s for s in ast.walk(fn_node) if isinstance(s, ast.Assign) and id(s) not in body_nodes and s.lineno < lp.lineno
+                   and any(isinstance(t, ast.Name) and t.id == nm for t in s.targets)]
+            if not pre:
+                continue
+            a_ids = {n.id for n in cfg.nodes if n.kind == "stmt" and any(n.ast is s for s in stmts)}
+            for n in cfg.nodes:
+                if n.kind != "stmt" or id(n.ast) not in body_nodes:
+                    continue
+                uses = [c for c in n.calls() if any(isinstance(y, ast.Name) and y.id == nm for a_ in list(c.args) + [k.value for k in c.keywords]
+                                                    for y in ast.walk(a_))]
+                if not uses or n.id in a_ids:
+                    continue
+                after_assign = any(cfg.path_avoiding(a, [n.id], [head.id]) for a in a_ids)
+                if after_assign and cfg.path_avoiding(head.id, [n.id], list(a_ids)):
+                    out.append((lp, nm, n, stmts[0]))
+    return out
+
+
+def per_item_values_fresh(chk):
+    from sa.cfg import CFG
+    pos = ast.parse(_POS_TRIP).body[0]
+    try:
+        if len(_carried_args(pos, CFG(pos))) != 1:
+            chk.pending_errors.append("TRIP-0 detector does not match its positive example")
+    except Exception as e:     # noqa
+        chk.pending_errors.append("TRIP-0 positive example could not be analysed: %r" % (e,))
+    n = 0
+    for ident in sorted(_anchor_idents(chk)):
+        rel, qual = ident.split("::", 1)
+        f = chk.repo.try_func(rel, qual)
+        if f is None or ident in _TRIP_CONFIRMED or not any(isinstance(x, ast.For) for x in ast.walk(f.node)):
+            continue
+        n += 1
+        for lp, nm, use, st in _carried_args(f.node, f.cfg()):
+            chk.ob("TRIP-0", "a value computed from the current item is computed on every path of the trip before it is handed on", False, f.where(use.ast),
+                   detail="%s is computed from the loop item at line %d but reaches this call on a path that skips the computation: it then still holds "
+                   "the value of an earlier item" % (nm, st.lineno), construct=ident, text="per-item value %s carried over" % nm)
+    chk.ob("TRIP-0", "functions examined for per-item values carried between trips (%d)" % n, True, "mpf:1", nontrivial=False)
